@@ -722,3 +722,71 @@ V('c08-purge-conditional', 'C08', 'C08.PURGE', CORE,
 # twins
 V('c08-twin-purge-inline', 'C08', 'C08.PURGE', CORE,
   "        self._async_remove_queued_answers(withdrawn)\n", "        self.out_queue._remove_answers_from_queue(dict.fromkeys(withdrawn, set()))\n        self.out_delay_queue._remove_answers_from_queue(dict.fromkeys(withdrawn, set()))\n", expect='silent')
+
+# ---------------------------------------------------------------- C09
+V('c09-register-before-probe', 'C09', 'C09.ORDER', CORE,
+  "        await self.async_check_service(info, allow_name_change, cooperating_responders, strict)\n        self.registry.async_add(info)",
+  "        self.registry.async_add(info)\n        await self.async_check_service(info, allow_name_change, cooperating_responders, strict)")
+V('c09-probe-not-awaited', 'C09', 'C09.ORDER', CORE,
+  "        await self.async_check_service(info, allow_name_change, cooperating_responders, strict)\n        self.registry.async_add(info)",
+  "        asyncio.ensure_future(self.async_check_service(info, allow_name_change, cooperating_responders, strict))\n        self.registry.async_add(info)")
+V('c09-conflict-ignored', 'C09', 'C09.ORDER', CORE,
+  "                if not allow_name_change:\n                    raise NonUniqueNameException\n", "                if not allow_name_change:\n                    break\n")
+V('c09-rename-keeps-count', 'C09', 'C09.ORDER', CORE,
+  "                next_time = now\n                i = 0\n", "                next_time = now\n")
+V('c09-send-before-check', 'C09', 'C09.ORDER', CORE,
+  "        while i < _REGISTER_BROADCASTS:\n            # check for a name conflict\n            while self.cache.current_entry_with_name_and_alias(info.type, info.name):",
+  "        while i < _REGISTER_BROADCASTS:\n            if now >= next_time:\n                self.async_send(self.generate_service_query(info))\n            # check for a name conflict\n            while self.cache.current_entry_with_name_and_alias(info.type, info.name):")
+V('c09-announce-override-ttl', 'C09', 'C09.ORDER', CORE,
+  "        self.registry.async_add(info)\n        return asyncio.ensure_future(self._async_broadcast_service(info, _REGISTER_TIME, None))", "        self.registry.async_add(info)\n        return asyncio.ensure_future(self._async_broadcast_service(info, _REGISTER_TIME, 120))")
+V('c09-rename-from-1', 'C09', 'C09.ORDER', CORE, "        next_instance_number = 2\n", "        next_instance_number = 1\n")
+V('c09-probe-qm', 'C09', 'C09.SHAPE', CORE,
+  "out.add_question(DNSQuestion(info.type, _TYPE_PTR, _CLASS_IN | _CLASS_UNIQUE))", "out.add_question(DNSQuestion(info.type, _TYPE_PTR, _CLASS_IN))")
+V('c09-probe-for-name', 'C09', 'C09.SHAPE', CORE,
+  "out.add_question(DNSQuestion(info.type, _TYPE_PTR, _CLASS_IN | _CLASS_UNIQUE))", "out.add_question(DNSQuestion(info.name, _TYPE_PTR, _CLASS_IN | _CLASS_UNIQUE))")
+V('c09-probe-no-authority', 'C09', 'C09.SHAPE', CORE,
+  "        out.add_authorative_answer(info.dns_pointer())\n        return out", "        return out")
+V('c09-check-150', 'C09', 'C09.CONST', 'const.py', "_CHECK_TIME = 175  # ms", "_CHECK_TIME = 150  # ms")
+V('c09-register-time', 'C09', 'C09.CONST', 'const.py', "_REGISTER_TIME = 225  # ms", "_REGISTER_TIME = 125  # ms")
+V('c09-probe-spacing-other-const', 'C09', 'C09.CONST', CORE, "            next_time += _CHECK_TIME", "            next_time += _UNREGISTER_TIME")
+V('c09-two-probes', 'C09', 'C09.CONST', CORE, "        while i < _REGISTER_BROADCASTS:\n            # check for a name conflict", "        while i < _REGISTER_BROADCASTS - 1:\n            # check for a name conflict")
+V('c09-no-sleep-between', 'C09', 'C09.CONST', CORE, "            if i != 0:\n                await asyncio.sleep(millis_to_seconds(interval))\n            self.async_send(self.generate_service_broadcast", "            if i == 0:\n                await asyncio.sleep(millis_to_seconds(interval))\n            self.async_send(self.generate_service_broadcast")
+V('c09-duplicate-overwrites', 'C09', 'C09.UNIQUE', RG,
+  "        if info.key in self._services:\n            raise ServiceNameAlreadyRegistered\n", "")
+V('c09-duplicate-case-sensitive', 'C09', 'C09.UNIQUE', RG, "        if info.key in self._services:", "        if info.name in self._services:")
+# twins
+V('c09-twin-loop-bound', 'C09', 'C09.CONST', CORE, "        while i < _REGISTER_BROADCASTS:\n            # check for a name conflict", "        while _REGISTER_BROADCASTS > i:\n            # check for a name conflict", expect='silent')
+
+# ---------------------------------------------------------------- C18
+V('c18-expiry-rejection-dropped', 'C18', 'C18.EXPIRY', INF,
+  "        if record.is_expired(now):\n            return False\n\n        record_key = record.key", "        record_key = record.key")
+V('c18-expiry-after-write', 'C18', 'C18.EXPIRY', INF,
+  "        if record_type is DNSText:\n            dns_text_record = record", "        if record_type is DNSText and not record.is_expired(now):\n            dns_text_record = record",
+  more=[(INF, "        if record.is_expired(now):\n            return False\n\n        record_key = record.key", "        record_key = record.key")])
+V('c18-cache-addresses-unfiltered', 'C18', 'C18.EXPIRY', INF,
+  "            if record.is_expired(now):\n                continue\n            ip_addr = get_ip_address_object_from_record(record)", "            ip_addr = get_ip_address_object_from_record(record)")
+V('c18-new-unguarded-writer', 'C18', 'C18.EXPIRY', INF,
+  "    def set_server_if_missing(self) -> None:", "    def _adopt(self, record: DNSService) -> None:\n        self.port = record.port\n        self.server = record.server\n        self.server_key = record.server_key\n\n    def set_server_if_missing(self) -> None:")
+V('c18-address-any-host', 'C18', 'C18.MATCH', INF,
+  "        if record_type is DNSAddress and record_key == self.server_key:", "        if record_type is DNSAddress:")
+V('c18-srv-any-instance', 'C18', 'C18.MATCH', INF,
+  "        if record_key != self.key:\n            return False\n\n        if record_type is DNSText:", "        if record_type is DNSText:")
+V('c18-txt-from-host', 'C18', 'C18.MATCH', INF,
+  "        if record_key != self.key:\n            return False\n\n        if record_type is DNSText:", "        if record_key != self.key and record_key != self.server_key:\n            return False\n\n        if record_type is DNSText:")
+V('c18-cache-hit-still-sends', 'C18', 'C18.BOUND', INF,
+  "        if self._load_from_cache(zc, now):\n            return True\n", "        loaded = self._load_from_cache(zc, now)\n")
+V('c18-no-deadline-test', 'C18', 'C18.BOUND', INF,
+  "                if last <= now:\n                    return False\n", "")
+V('c18-deadline-after-send', 'C18', 'C18.BOUND', INF,
+  "                if last <= now:\n                    return False\n                if next_ <= now:", "                if next_ <= now:",
+  more=[(INF, "                await self.async_wait(min(next_, last) - now, zc.loop)", "                if last <= now:\n                    return False\n                await self.async_wait(min(next_, last) - now, zc.loop)")])
+V('c18-wait-past-deadline', 'C18', 'C18.BOUND', INF,
+  "                await self.async_wait(min(next_, last) - now, zc.loop)", "                await self.async_wait(next_ - now, zc.loop)")
+V('c18-deadline-doubled', 'C18', 'C18.BOUND', INF, "        last = now + timeout\n", "        last = now + timeout * 2\n")
+V('c18-complete-without-address', 'C18', 'C18.BOUND', INF,
+  "        return bool(self.text is not None and (self._ipv4_addresses or self._ipv6_addresses))", "        return bool(self.text is not None)")
+V('c18-send-empty-query', 'C18', 'C18.BOUND', INF,
+  "                    if out.questions:\n", "                    if True:\n")
+# twins
+V('c18-twin-deadline-flipped', 'C18', 'C18.BOUND', INF,
+  "                if last <= now:\n                    return False\n", "                if now >= last:\n                    return False\n", expect='silent')
